@@ -12,7 +12,7 @@ T_HIST = 'explicit-state BFS over call histories on live objects with reflection
 
 CHECKS = {
     'C20': ("25-60 documents x {LF, CRLF, CR} x {final newline, none} (incl. non-ASCII lyrics and eight Unicode line-boundary characters inside a cell): every observation of load(file) must "
-            "equal that of loads(text) and must not depend on the line ends; x 10 option sets: the bytes dump writes (also into missing nested directories) must decode to dumps' "
+            "equal that of loads(text) and must not depend on the line ends (plus 24 long lyrics files of dense 2-, 3- and 4-byte characters x 8 paddings, so that every 512-byte block boundary falls inside a character in some variant); x 10 option sets: the bytes dump writes (also into missing nested directories) must decode to dumps' "
             "string; the CLI is run as a subprocess in single-file mode (with and without --output_path), directory mode and recursive directory mode (nested directories, both "
             "suffixes, a file with an import error, unrelated files) in both directions: outputs must equal the API's, exactly the expected files appear, nothing else changes, "
             "ekern -> kern -> ekern is the identity.",
@@ -26,14 +26,14 @@ CHECKS = {
     'C18': ("9 non-kern headers (text, dynam, dyn, harm, mxhm, fing and three unknown ones) x a corpus of one token per grammar alternative, free text, malformed texts, look-alikes and ALL "
             "strings of length <=2 over a 49-character alphabet (thorough: + all length-3 strings over 25 characters; 2.6k / 18k cells per header): import never raises; whether a cell is "
             "shared structure is decided by an independent recogniser (regular expressions from the Humdrum syntax) - then category and export must be those of a **kern spine, otherwise "
-            "the token must be verbatim with the spine type's own category; a shared importer instance must agree with a fresh one. Document level: the same rows under every type give "
+            "the token must be verbatim with the spine type's own category (the corpus includes texts that Unicode normalisation, case folding, trimming, escaping or number parsing would change); a shared importer instance must agree with a fresh one. Document level: the same rows under every type give "
             "the same measure count and barline stages.",
             'Trusted: the recogniser in kv/props/c18.py. Prefix parses (=foo -> =) are a known finding shared with C12.', T_GRID, 'DESIGN.md §3 C18'),
     'C12': ("(a) Every token history up to depth 2 (thorough 3) over 12 valid + 17 malformed tokens on ONE live spine importer of each of 8 spine types, followed by closure of the importer's "
             "reflection-fingerprint graph: the outcome for a token must equal the outcome on a fresh importer. (b) Four skeleton documents (1-3 spines incl. root/dynam/harm/mxhm, a split) x "
             "every placement of one malformed cell x 17 malformed texts, every pair of placements (thorough: every triple on the small skeleton), and a blank line before the damage; "
             "oracle = reference model of the damaged document (one error per malformed kern cell with physical line number and text, other tokens untouched, malformed cells "
-            "verbatim in place) + undamaged twin.",
+            "verbatim in place) + undamaged twin; where the error list is right, raise_on_errors=True must raise exactly when it is non-empty and name every malformed cell and line.",
             'Trusted: kv/model.py, kv/snapshot.py. The prefix-parse class (characters after a valid token are dropped) is a known finding.', T_HIST + ' + ' + T_PATHS, 'DESIGN.md §3 C12'),
     'C14': ("Explicit-state BFS over call histories on a live Document (8 documents quick / 41 thorough, incl. one with import errors, one without measures, one without clef; 70-75 read-only "
             "operations incl. calls that raise): state = reflection snapshot of the document, of every mutable module-level container and class attribute of kernpy, and of every "
@@ -43,7 +43,7 @@ CHECKS = {
             'Trusted: kv/snapshot.py reflection walk (no field names hard-coded; Node.NextID excluded). Graph output compared modulo node identifiers.', T_HIST, 'DESIGN.md §3 C14'),
     'C19': ("Kern-only documents (every row sequence to length 4/3, thorough 5/4, over data, barline, null, clef, split, join; <=1/2 deviations of a backbone) cut at EVERY subset of their "
             "barline rows (<=5 cuts) with both separators; concat's document must equal the import of the joined text (three views), one pair per fragment, pairs consecutive, last 'to' == "
-            "measure count, and exporting pair i must give exactly the data lines of fragment i. Blank lines inside fragments and scores with a spine terminated early are included; the measure index is re-read after the exports.",
+            "measure count, and exporting pair i must give exactly the data lines of fragment i (the (0,0) pair of a header-only first fragment: none). Blank lines inside fragments and scores with a spine terminated early are included; the measure index is re-read after the exports.",
             'Fragment data lines are compared in normal form taken from kernpy\'s own full export (C03).', T_PATHS + ' x exhaustive cut sets', 'DESIGN.md §3 C19'),
     'C07': ("Every row sequence up to length 5/4/4/3 (thorough 6/5/5/4) over data, barline, null interpretation, clef row, null data, split, join for 1-3 kern spines (and kern+text exported with "
             "spine_types=['**kern']) plus all <=2 (3) deviations of a backbone score; for each document EVERY range 1<=a<=b<=M, (a,None), (None,b) and eight out-of-range shapes. Oracle: the "
@@ -108,9 +108,9 @@ CHECKS = {
             "letter/semitone model; inverse, unison, octave, fourth+fifth and general composition laws are evaluated on every path. Decided on the stated grid.",
             'Trusted: kv/pitchref.py. Pitches outside octaves 0..8 are reached only as second-step states.', T_GRID, 'DESIGN.md §3 C09'),
     'C11': ("Every query of the category algebra is evaluated on the complete finite grids named by the property (37 categories, 37x37 pairs, 705x705 include/exclude "
-            "pairs of size<=2 incl. None, 37 match targets, all 2^16 unions of top-level categories) and compared with the README tree transcribed by hand; within those grids the property is decided, not sampled. History passes: the same argument object for consecutive calls, a container edited between two match calls, returned sets edited by the caller before asking again.",
+            "pairs of size<=2 incl. None, 37 match targets, all 2^16 unions of top-level categories, and inside each top-level tree every include subset x every exclude subset for valid and match - quick tier: include size <= 2 in the 11-node CORE tree) and compared with the README tree transcribed by hand; within those grids the property is decided, not sampled. History passes: the same argument object for consecutive calls, a container edited between two match calls, returned sets edited by the caller before asking again.",
             'Trusted: kv/catref.py (hand transcription of the README tree); CPython enum semantics.', T_GRID, 'DESIGN.md §3 C11'),
-    'C16': ("All 539 spellings, imported and exported, each exported three times from the same object with a reflection snapshot before/after; all 539^2 histories of length 2 "
+    'C16': ("All 539 spellings, imported and exported, each exported three times from the same object with a snapshot of its public view (data attributes, repr, str) before/after; re-spell histories (export, re-spell through the public setters, export again); all 539^2 histories of length 2 "
             "through one shared importer and one shared exporter, plus two histories of length 539. Decided on the stated grid. The object returned by an earlier import / given to an earlier export is inspected again after a later call through the same instance.",
             'Trusted: kv/pitchref.py spelling model.', T_GRID + '; history enumeration on shared codec instances', 'DESIGN.md §3 C16'),
 }
